@@ -84,7 +84,13 @@ impl SocketRecv for ReqSocket {
             Some(peer_id) => {
                 if let Some(mut peer) = self.backend.peers.get_async(&peer_id).await {
                     let reply = peer.recv_queue.next().await;
+                    drop(peer);
                     self.current_request = None;
+                    if !matches!(reply, Some(Ok(_))) {
+                        // The connection ended or can no longer be decoded: forget
+                        // the peer instead of rotating back to it.
+                        self.backend.peer_disconnected(&peer_id);
+                    }
                     match reply {
                         Some(Ok(Message::Message(mut m))) => {
                             if m.len() < 2 {
